@@ -108,7 +108,7 @@ def _make_fake_client_class():
             clock = run.clock
             k = len(run.log)
             step = run.script[k] if k < len(run.script) else run.default_step
-            rec = {"issue": clock.now, "ws": None, "we": None, "ret": None, "optype": params.get("operation-type")}
+            rec = {"issue": clock.now, "ws": None, "we": None, "ret": None, "optype": params.get("operation-type"), "cset_issue": run.complete.is_set(), "cset_ret": False}
             run.log.append(rec)
             run.used.append(step)
             if k + 1 >= MAX_REQUESTS:
@@ -127,6 +127,7 @@ def _make_fake_client_class():
             if step["d2"] > 0:
                 await asyncio.sleep(step["d2"] / run.tps)
             rec["ret"] = clock.now
+            rec["cset_ret"] = run.complete.is_set()
             out = step["out"]
             if out == "ok":
                 return {"weight": step["w"], "unit": run.cfg["runit"]}
@@ -210,6 +211,11 @@ class ObservedSchedule:
                     {"tuple": tup, "at": run.clock.now, "samples_before": run.take_samples(), "expo": run.expo}
                 )
                 run.expo = []
+                k = len(run.yields) - 1
+                extw = run.script[k].get("extw", 0) if k < len(run.script) else 0
+                if extw > 0:
+                    # the completed-by signal of another task arrives extw ticks after the client began to wait for this request
+                    asyncio.get_running_loop().call_later(extw / run.tps, run.complete.set)
                 yield tup
 
         return observed()
@@ -451,7 +457,8 @@ def _project(case, run, aborted, mult):
         else:
             ev.update(issue=-1, ws=-1, we=-1, ret=-1)
         ok = step["out"] == "ok"
-        ev.update(ok=ok, w=step["w"] if ok else 0, unit=cfg["runit"] if ok else "ops", ext=bool(step["ext"]), inc=0)
+        ev.update(ok=ok, w=step["w"] if ok else 0, unit=cfg["runit"] if ok else "ops", ext=bool(lg["cset_ret"]) if lg is not None else False, inc=0)
+        ev["xw"] = bool(lg is not None and lg["cset_issue"])
         ev["executed"] = lg is not None
         ev["nsamples"] = len(smp)
         ev["s"] = _project_sample(smp[0], run, conv, pd) if smp else dict(NO_SAMPLE)
@@ -543,6 +550,8 @@ def behaviour_to_case(path):
             if act["poisson"]:
                 incs.append(act["inc"])
             cur = {"d1": 0, "svc": 0, "d2": 0, "out": "ok", "w": 1, "ext": False}
+        elif name == "SleepUntil":
+            cur["extw"] = act["xo"]
         elif name == "WireStart":
             cur["d1"] = act["d"]
         elif name == "WireEnd":
@@ -664,6 +673,8 @@ def random_case(rnd, exact):
         r = rnd.random()
         outk = "ok" if r < 0.8 else rnd.choice(["api", "transport", "timeout"])
         script.append({"d1": d1, "svc": svc, "d2": d2, "out": outk, "w": rnd.choice(weights) if outk == "ok" else 0, "ext": rnd.random() < 0.02})
+        if sched != "unthrottled" and rnd.random() < 0.03:
+            script[-1]["extw"] = rnd.randint(1, max(1, mean))  # complete event set that many ticks after the client began to wait
     incs = [rnd.randint(0, 2 * mean + 1) for _ in range(60)]
     t0 = rnd.choice([0, 3 * tps, 17 * tps]) + (0 if exact else rnd.randint(0, 999))
     case = {"src": "random-dyadic" if exact else "random-approx", "exact": exact, "cfg": cfg, "t0": t0, "script": script, "incs": incs, "variant": random_variant(rnd)}
@@ -1062,6 +1073,7 @@ def coverage_stats(items):
         "runs_with_rampup_delay_in_multi_subtask_parallel": 0,
         "runs_with_completion_runner_not_completing": 0,
         "runs_completed_by_runner": 0,
+        "runs_completed_externally_during_a_throttle_wait": 0,
     }
     for it in items:
         cfg = it["cfg"]
@@ -1116,6 +1128,8 @@ def coverage_stats(items):
                 strad = True
             if e["ext"]:
                 st["runs_completed_externally"] += 1
+            if e.get("xw") and e["sched"] > 0 and e["yat"] < e["issue"]:
+                st["runs_completed_externally_during_a_throttle_wait"] += 1
         if strad:
             st["runs_with_straddling_warmup_request"] += 1
     return st
